@@ -28,6 +28,14 @@ CHECKS = {
        "pcall/resume/close results and the final outcome are compared with the manual's semantics computed by the spec",
   note="bounded: nesting <=3-4, <=6-8 actions, <=2 variables per scope; single-iteration loops; chunks run inside Thread.CallContext (F23 recorded for bare rt.Call)",
   technique="TLA+ spec CloseStack.tla, TLC BFS + simulation, generated programs replayed on the real runtime (direction A)"),
+ "C11": dict(
+  level="model_checking", ref="5 C11",
+  text="the scope/unwinding model (CloseStack.tla with catchers pcall, xpcall+message handler, coroutine.resume; error values string level 0/1/2, "
+       "number, table, nil, runtime errors; raise sites statement/metamethod/iterator/nested function) is explored by TLC; every path is rendered as a Lua "
+       "program and run; compared: which catcher received which value (tables by identity, position prefix chunk:line: computed from the rendered text), "
+       "handler calls, pending __close calls, and a post-error consistency battery after every caught error",
+  note="bounded: nesting <=3-4, <=5-7 actions; raising message handlers and raising __close handlers under xpcall are not generated; error message wording beyond the position prefix is not compared",
+  technique="TLA+ spec CloseStack.tla (ErrorFlow configs), TLC BFS + simulation, generated programs replayed on the real runtime (direction A)"),
 }
 NOT_YET = {}
 
